@@ -2,7 +2,8 @@
 
 Correspondence: `functional.slice_spect_data` / `modules.SliceSpectData` and
 `functional.chunk_token_sequences_by_slices` / `modules.ChunkTokenSequencesBySlices` are run
-in-process on exhaustively enumerated small inputs; the Lean driver returns, for the same input
+in-process on exhaustively enumerated small inputs and on inputs whose dimensions sit at and around
+the size thresholds 16 / 32 / 64 / 128 / 1000 (`cases_large`); the Lean driver returns, for the same input
 and grid of configurations, the output of the tensor-style model (`Model/Slicing.lean`) and the
 value of the declarative policy (`Spec/SlicePolicy.lean`).
 
@@ -75,10 +76,12 @@ def neg_int(rng, mag):
 
 
 def distinct_ints(rng, mag, k):
-    out = []
+    out, seen = [], set()
     while len(out) < k:
-        v = free_int(rng, mag)
-        if v not in out:
+        # the small class has 20 values only: longer lists draw from a range that grows with the list
+        v = free_int(rng, mag) if k <= 8 else free_int(rng, mag) * rng.choice([1, 1, 7]) + rng.randint(-4 * k, 4 * k)
+        if v not in seen and -2 ** 63 <= v < 2 ** 63:
+            seen.add(v)
             out.append(v)
     return out
 
@@ -123,7 +126,98 @@ def build_feats(N, T, feat):
 
 
 LAYOUTS = ["contiguous", "expanded", "strided"]
-VIAS = ["functional", "module", "functional_kw", "module_kw"]
+VIAS = ["functional", "module", "functional_kw", "module_kw", "scripted"]
+# "scripted" = torch.jit.script(module): the documented third way to run the modules (TorchScript has its own
+# integer / indexing semantics). One compiled module per constructor argument tuple, kept for the run.
+_SCRIPTED = {}
+
+
+def err_class(e):
+    """The error class of an observation. A scripted module raises torch.jit.Error (TorchScript's wrapper: its text
+    ends with the class and message of the error the scripted code raised): recorded as that class."""
+    if type(e).__module__.startswith("torch.jit") and type(e).__name__ == "Error":
+        import re
+        m = re.findall(r"^(?:builtins\.)?(\w+(?:Error|Exception)):", str(e), flags=re.M)
+        return m[-1] if m else "Error"
+    return type(e).__name__
+
+
+def scripted(cls_name, *args):
+    import warnings
+    import torch
+    from pydrobert.torch import modules
+    key = (cls_name,) + args
+    if key not in _SCRIPTED:
+        with warnings.catch_warnings():
+            warnings.simplefilter("ignore")
+            _SCRIPTED[key] = torch.jit.script(getattr(modules, cls_name)(*args))
+    return _SCRIPTED[key]
+
+
+# ---- size-triggered paths ---------------------------------------------------------------------------
+# torch switches algorithm with the size of a dimension (sort: insertion sort up to 16 elements, vectorised /
+# parallel kernels from 32 / 64 / 128 elements on, chunked reductions beyond ~1000): every dimension of every
+# covered function is taken to and around these thresholds.
+SIZES = [15, 16, 17, 31, 32, 33, 64, 65, 128, 129]
+
+
+def sizes(rng):
+    return SIZES + [1000 + rng.randint(0, 40)]
+
+
+def tiled_row(rng, mag, R):
+    """R tokens with DISTINCT ids whose known segments follow one another (widths 0..3, now and then a gap), a few
+    with a missing boundary: any loss, duplication or REORDERING of tokens is visible in the result.
+    Returns (row, end of the last segment)."""
+    ids = distinct_ints(rng, mag, R)
+    t = rng.choice([0, 0, 1, 3])
+    row = []
+    for i in range(R):
+        w = rng.choice([1, 1, 2, 3, 0])
+        s, e = t, t + w
+        t = e + (rng.randint(1, 2) if rng.random() < 0.05 else 0)
+        x = rng.random()
+        if x < 0.03:
+            s = neg_int(rng, mag)
+        elif x < 0.06:
+            e = neg_int(rng, mag)
+        row.append([ids[i], s, e])
+    return row, t
+
+
+def wide_window(rng, total):
+    """A slice of a sequence of `total` frames that keeps many tokens and drops many (not a prefix of the row)."""
+    x = rng.random()
+    if x < 0.1:
+        return [0, total]
+    if x < 0.2:
+        return [-rng.randint(1, 3), total + rng.randint(1, 3)]
+    a = rng.randint(0, max(total // 2, 0))
+    b = rng.randint(total // 2, total)
+    return [a, b] if x < 0.95 else [b, a]
+
+
+def brief(x, k=6):
+    """Long lists in messages: the first and last few entries."""
+    if isinstance(x, list) and len(x) > 2 * k:
+        return f"{x[:k]}".rstrip("]") + f", ... ({len(x) - 2 * k} more) ..., " + f"{x[-k:]}".lstrip("[")
+    return f"{x}"
+
+
+def diff_note(got, want):
+    """How two long lists differ: first differing position; same elements in another order?"""
+    if not (isinstance(got, list) and isinstance(want, list)) or max(len(got), len(want)) <= 8:
+        return ""
+    k = next((i for i, (a, b) in enumerate(zip(got, want)) if a != b), min(len(got), len(want)))
+    note = f" [lengths {len(got)}/{len(want)}; first difference at position {k}: " \
+           f"{got[k] if k < len(got) else 'nothing'} instead of {want[k] if k < len(want) else 'nothing'}"
+    try:
+        if sorted(map(tuple, got)) == sorted(map(tuple, want)):
+            note += "; the SAME elements in a different ORDER"
+    except TypeError:
+        pass
+    return note + "]"
+
 # the documented defaults of slice_spect_data / SliceSpectData and of the token chunker
 SLICE_DEFAULTS = {"policy": "fixed", "window_type": "symmetric", "valid_only": True, "lobe_size": 0}
 TOKEN_DEFAULTS = {"partial": False, "retain": False}
@@ -169,6 +263,8 @@ def non_default(kw, defaults):
 def call_slicer(case, inp, in_lens, other_lens, wt, vo, lobe):
     via = case.get("via", "functional")
     kw = {"policy": case["policy"], "window_type": wt, "valid_only": vo, "lobe_size": lobe}
+    if via == "scripted":
+        return scripted("SliceSpectData", case["policy"], wt, vo, lobe)(inp, in_lens, other_lens)
     if via.startswith("module"):
         from pydrobert.torch.modules import SliceSpectData
         mod = (SliceSpectData(**non_default(kw, SLICE_DEFAULTS)) if via == "module_kw"
@@ -188,6 +284,8 @@ def call_chunker(case, refs, sl, rl, p, r):
     via = case.get("via", "functional")
     kw = non_default({"partial": p, "retain": r}, TOKEN_DEFAULTS)
     lens = {} if rl is None else {"ref_lens": rl}
+    if via == "scripted":
+        return scripted("ChunkTokenSequencesBySlices", p, r)(refs, sl, rl)
     if via.startswith("module"):
         from pydrobert.torch.modules import ChunkTokenSequencesBySlices
         if via == "module_kw":
@@ -255,6 +353,20 @@ class C10(PropertyCheck):
             "in_lens (also for 'ref', where the code has no explicit test) through the model's shape guard; directories "
             "with an utterance of 0 frames (alone and next to others) x policy x validity; directories whose ref/ files "
             "hold token ids only (1-D) x policy x validity ('ref' must refuse; 'fixed'/'ali': known finding). "
+            "SIZE-TRIGGERED PATHS (round g): every dimension of every covered function at and around 15,16,17 / "
+            "31,32,33 / 64,65 / 128,129 / 1000+k, one case per size and dimension in quick (three in thorough): token "
+            "chunker R (tokens per element) and N (elements = windows of one utterance), both moderately large (<=33) "
+            "in 4 cases; 'fixed' / 'ali' / 'ref' T and N, lobes 0, 1..3 and one of 15..33 (64 for T >= 1000); 'fixed' "
+            "also T just beyond 256, 2048, 2**15, 2**16 with a lobe of T/60..T/20 frames; long token rows have DISTINCT "
+            "ids and segments that follow one another (widths 0..3, gaps, a few missing boundaries), alignment rows "
+            "runs of 1..3 frames / a few long runs / single frames with differing neighbours, slices that keep a "
+            "middle stretch of the row; ChunkBySlices called directly the way the worker does (windows touching the "
+            "sequence, lengths omitted, expanded utterance or differing rows, feats / alis, constant / replicate / "
+            "reflect) with T resp. the number of windows at the same sizes (Python-side oracle only); entry points "
+            "functional / module / keyword forms / torch.jit.script(module) for every slice / tokens / frames case; "
+            "directory level: per policy x validity one utterance of 33..129 frames (about T/2 tokens and runs, up to "
+            "129 chunks), one utterance of 1000+ frames with --policy fixed --lobe-size 31..64 (hundreds of tokens, "
+            "dozens per chunk), thorough also 1000+ frames cut into hundreds of chunks. "
             "non-trivial: some configuration returns >= 2 windows, or keeps >= 1 token and drops >= 1, or a "
             "directory run writes >= 2 chunks; distinct by the case json")
     assumptions = [
@@ -267,6 +379,11 @@ class C10(PropertyCheck):
         "directory level: a source with a negative token id is not well-formed by the library validator's rule, so "
         "the validator clause on the output is skipped for it (all other clauses are evaluated)",
         "torch primitives (arange, nonzero, boolean-mask indexing, gather, masked_scatter_) at their documented meaning",
+        "sizes: every dimension up to 1040 (policy 'fixed': T up to 2**16 + 99); a path that only opens beyond that "
+        "(e.g. int32 index overflow) is not exercised; the direct ChunkBySlices calls are judged by the Python-side "
+        "oracle only (windows touching the sequence, reflect padding shorter than the sequence)",
+        "a scripted module reports a documented RuntimeError as torch.jit.Error whose text names the original class; "
+        "the observation records that class",
         "policy/window_type/lobe_size argument validation is checked only as 'RuntimeError/ValueError is raised'",
         "directory level: features/alignments of a chunk are compared with the source frames restricted to the "
         "window under constant / replicate / reflect padding (Python-side oracle, Lean chunkSeq, and the model of "
@@ -318,10 +435,12 @@ class C10(PropertyCheck):
         # directory level first (so that it is never cut off by the budget): the command line with
         # --num-workers 0, every subset of its boolean flags x policy x validity, every file-layout option
         yield from c10_dir.gen_quick(rng, rounds=6 if big else 3)
+        yield from c10_dir.gen_large(rng, rounds=3 if big else 1)
         yield from self.cases_fixed(rng, big)
         yield from self.cases_ali(rng, big)
         yield from self.cases_ref(rng, big)
         yield from self.cases_tokens(rng, big)
+        yield from self.cases_large(rng, big)
         yield from self.cases_malformed(rng, big)
         if big:   # more directory-level runs, everything drawn at random
             yield from c10_dir.gen_cases(rng, 400 if tier == "search" else 160)
@@ -520,6 +639,197 @@ class C10(PropertyCheck):
             yield {"kind": "tokens", "refs": refs, "partials": [True, False], "retains": [True, False],
                    "slices_opts": sls, "ref_lens_opts": lens, "dtype": pf["dtype"], "lens_dtype": pf["lens_dtype"]}
 
+    # ---------------------------------------------------------------- size-triggered paths
+    def cases_large(self, rng, big):
+        """Every dimension of every covered function at and around 15,16,17 / 31,32,33 / 64,65 / 128,129 / 1000+:
+        tokens per element R and batch size N of the token chunker; padded length T, number of runs / tokens and
+        batch size N of the three slicing policies; also a lobe beyond 16 / 32. One dimension is large at a time
+        (the other stays small), plus a few cases with two moderately large dimensions. Token ids are DISTINCT and
+        the segments follow one another, run labels differ between neighbours: order is observable."""
+        for _ in range(3 if big else 1):
+            yield from self.large_tokens(rng)
+            yield from self.large_fixed(rng)
+            yield from self.large_ali(rng)
+            yield from self.large_ref(rng)
+            yield from self.large_frames(rng)
+
+    def large_frames(self, rng):
+        """The worker's feature / alignment chunker (ChunkBySlices) called directly, the way the worker calls it -
+        windows that touch the sequence, lengths omitted, one utterance expanded against its windows or different
+        rows - with T resp. the number of windows at the size thresholds; functional / module / scripted. Oracle:
+        the source frames restricted to the window with the requested padding (the Python-side oracle of the
+        directory runs; no Lean model of this call here - ChunkBySlices as such is property C09)."""
+        for axis in ("T", "N"):
+            for n in sizes(rng):
+                T = n if axis == "T" else rng.randint(2, 6)
+                N = rng.randint(1, 4) if axis == "T" else n
+                mode = rng.choice(["constant", "constant", "replicate", "reflect"])
+                maxpad = min(T - 1, 3) if mode == "reflect" else 3
+                sls = []
+                for _ in range(N):
+                    a = rng.randint(-maxpad, T - 1)
+                    sls.append([a, rng.randint(max(a + 1, 1), T + maxpad)])
+                yield {"kind": "frames", "N": N, "T": T, "mode": mode, "what": rng.choice(["feats", "alis"]),
+                       "same": rng.random() < 0.5, "slices": sls, "via": rng.choice(["functional", "module", "scripted"]),
+                       "large": axis}
+
+    def impl_frames(self, case):
+        import torch
+        N, T, F = case["N"], case["T"], 2
+        pad = -7
+        rows = [0] * N if case["same"] else list(range(N))
+        ids = torch.tensor([[2000 * r + t for t in range(T)] for r in rows[:1 if case["same"] else N]])
+        if case["what"] == "feats":
+            x = (ids.unsqueeze(2) + torch.tensor([0.0, 0.25])).to(torch.float32)
+        else:
+            x = ids
+        if case["same"]:
+            x = x.expand(N, *x.shape[1:])
+        sl = torch.tensor(case["slices"]).reshape(N, 2)
+        if case["via"] == "functional":
+            from pydrobert.torch.functional import chunk_by_slices
+            ch, lens = chunk_by_slices(x, sl, None, case["mode"], float(pad))
+        elif case["via"] == "module":
+            from pydrobert.torch.modules import ChunkBySlices
+            ch, lens = ChunkBySlices(case["mode"], float(pad))(x, sl)
+        else:
+            ch, lens = scripted("ChunkBySlices", case["mode"], float(pad))(x, sl, None)
+        if ch.shape[0] != N or tuple(ch.shape[2:]) != tuple(x.shape[2:]) or tuple(lens.shape) != (N,) or \
+                ch.dtype != x.dtype or any(int(l) > ch.shape[1] or int(l) < 0 for l in lens):
+            return {"error": "BadShape", "message": f"{tuple(ch.shape)} {ch.dtype} {tuple(lens.shape)}"}
+        out = []
+        for n in range(N):
+            got = []
+            for v in ch[n, :int(lens[n])].reshape(int(lens[n]), -1).tolist():
+                t = int(v[0]) - 2000 * rows[n]
+                if v == [pad] * len(v):
+                    got.append(None)
+                elif 0 <= t < T and v == ([2000 * rows[n] + t, 2000 * rows[n] + t + 0.25][:len(v)]):
+                    got.append(t)
+                else:
+                    got.append("junk")
+            out.append(got)
+        return {"chunks": out}
+
+    def pred_frames(self, case, impl):
+        if "error" in impl:
+            return [(f"ChunkBySlices ({case['via']}, {case['mode']}) raised {impl['error']}: {impl.get('message')}", None)]
+        fails = []
+        for n, ((a, b), got) in enumerate(zip(case["slices"], impl["chunks"])):
+            want = [c10_dir.pad_frame({"pad_mode": case["mode"]}, t, case["T"]) for t in range(a, b)]
+            if got != want:
+                fails.append((f"ChunkBySlices ({case['via']}, {case['what']}, {case['mode']}, T={case['T']}, "
+                              f"{case['N']} windows) window {n} = [{a},{b}): frames {brief(got)} are not the source "
+                              f"restricted to the window with the requested padding {brief(want)}"
+                              f"{diff_note(got, want)}", None))
+                if len(fails) >= 3:
+                    break
+        return fails
+
+    def large_token_case(self, rng, N, R, same):
+        pf = draw_profile(rng)
+        if same:      # one utterance against N windows: the way chunk-torch-spect-data-dir calls the chunker
+            row, total = tiled_row(rng, pf["mag"], R)
+            refs, totals = [row] * N, [total] * N
+        else:
+            pairs = [tiled_row(rng, pf["mag"], R) for _ in range(N)]
+            refs, totals = [p[0] for p in pairs], [p[1] for p in pairs]
+        sls = [[wide_window(rng, t) for t in totals] for _ in range(2)]
+        lens = [None, [rng.choice([R, R, R - 1, R // 2, rng.randint(0, R)]) for _ in range(N)],
+                [rng.choice([R + 1, -1, rng.randint(0, R), R]) for _ in range(N)]]
+        return {"kind": "tokens", "refs": refs, "partials": [True, False], "retains": [True, False],
+                "slices_opts": sls, "ref_lens_opts": lens, "dtype": pf["dtype"], "lens_dtype": pf["lens_dtype"],
+                "large": "R" if R >= N else "N"}
+
+    def large_tokens(self, rng):
+        for R in sizes(rng):          # long token lists, few elements
+            yield self.large_token_case(rng, rng.randint(1, 4), R, rng.random() < 0.5)
+        for N in sizes(rng):          # many elements (many windows of one utterance), short lists
+            yield self.large_token_case(rng, N, rng.randint(1, 3), rng.random() < 0.5)
+        for _ in range(4):            # both moderately large
+            yield self.large_token_case(rng, rng.choice(SIZES[:6]), rng.choice(SIZES[:6]), rng.random() < 0.5)
+
+    @staticmethod
+    def large_lobes(rng, T):
+        """Lobe 0, a small lobe and one beyond the thresholds 16 / 32 (more than the sequence when T is small)."""
+        return sorted({0, rng.randint(1, 3), rng.choice(SIZES[:6])}) if T < 500 else \
+            sorted({rng.randint(0, 3), rng.choice(SIZES[:8])})
+
+    def large_lens(self, rng, N, T):
+        opts = [{"in_lens": None, "other_lens": None},
+                {"in_lens": [rng.choice([T, T - 1, rng.randint(0, T), T // 2]) for _ in range(N)], "other_lens": None}]
+        return opts
+
+    def large_fixed(self, rng):
+        for T in sizes(rng):
+            N = rng.randint(1, 3)
+            pf = draw_profile(rng)
+            yield {"kind": "slice", "policy": "fixed", "N": N, "T": T, "lobes": self.large_lobes(rng, T), "wts": WTS,
+                   "valids": [True, False], "lens_opts": self.unused_other(rng, pf, N, self.large_lens(rng, N, T)),
+                   "feat": draw_feat(rng), "lens_dtype": pf["lens_dtype"], "large": "T"}
+        # beyond the 8 / 16 bit integer and half-precision ranges (256, 2048, 32768, 65536): 'fixed' needs no data,
+        # and a lobe of several hundred frames keeps the number of windows small
+        for T in (256 + rng.randint(0, 9), 2048 + rng.randint(1, 9), 2 ** 15 + rng.randint(0, 9), 2 ** 16 + rng.randint(1, 99)):
+            N = rng.randint(1, 2) if T < 2 ** 15 else 1
+            pf = draw_profile(rng)
+            opts = [{"in_lens": None, "other_lens": None},
+                    {"in_lens": [rng.choice([T, T - 1, T - rng.randint(0, 300)]) for _ in range(N)], "other_lens": None}]
+            yield {"kind": "slice", "policy": "fixed", "N": N, "T": T,
+                   "lobes": sorted({max(T // 40, 7), rng.randint(max(T // 60, 5), max(T // 20, 9))})[:2 if T < 2 ** 15 else 1],
+                   "wts": WTS,
+                   "valids": [True, False], "lens_opts": opts, "feat": dict(draw_feat(rng), trail=[]),
+                   "lens_dtype": pf["lens_dtype"], "large": "T"}
+        for N in sizes(rng):
+            T = rng.randint(1, 4)
+            pf = draw_profile(rng)
+            yield {"kind": "slice", "policy": "fixed", "N": N, "T": T, "lobes": [0, rng.randint(1, 3)], "wts": WTS,
+                   "valids": [True, False], "lens_opts": self.unused_other(rng, pf, N, self.large_lens(rng, N, T)),
+                   "feat": draw_feat(rng), "lens_dtype": pf["lens_dtype"], "large": "N"}
+
+    @staticmethod
+    def run_row(rng, T, style):
+        """Alignment row over labels 0..4: 'many' = runs of 1..3 frames (about T/2 runs), 'few' = a handful of long
+        runs, 'single' frames only (T runs). Neighbouring runs carry different labels."""
+        row, lab = [], rng.randint(0, 4)
+        while len(row) < T:
+            n = {"many": rng.randint(1, 3), "few": rng.randint(max(T // 6, 1), max(T // 3, 1)), "single": 1}[style]
+            row += [lab] * min(n, T - len(row))
+            lab = rng.choice([x for x in range(5) if x != lab])
+        return row
+
+    def large_ali(self, rng):
+        for T in sizes(rng):
+            N = rng.randint(1, 3)
+            rows = [self.run_row(rng, T, rng.choice(["many", "many", "few", "single"])) for _ in range(N)]
+            c = self.ali_case(rng, N, T, rows, [0, 1, 2, 3, 4], self.large_lobes(rng, T), self.large_lens(rng, N, T))
+            yield dict(c, large="T")
+        for N in sizes(rng):
+            T = rng.randint(1, 4)
+            rows = [self.run_row(rng, T, rng.choice(["many", "single"])) for _ in range(N)]
+            c = self.ali_case(rng, N, T, rows, [0, 1, 2, 3, 4], [0, rng.randint(1, 3)], self.large_lens(rng, N, T))
+            yield dict(c, large="N")
+
+    def large_ref(self, rng):
+        segs = [(s, e) for s in range(-1, 4) for e in range(-1, 4)]
+        for T in sizes(rng):
+            N = rng.randint(1, 3)
+            pf = draw_profile(rng)
+            pairs = [tiled_row(rng, pf["mag"], T) for _ in range(N)]
+            rows, totals = [p[0] for p in pairs], [p[1] for p in pairs]
+            il = [rng.choice([T, T - 1, rng.randint(0, T)]) for _ in range(N)]
+            opts = [{"in_lens": None, "other_lens": None}, {"in_lens": il, "other_lens": None},
+                    {"in_lens": rng.choice([None, il]),
+                     "other_lens": [rng.choice([t, t + 2, t - 1, rng.randint(0, t + 1)]) for t in totals]}]
+            yield dict(self.ref_case(rng, pf, N, T, rows, self.large_lobes(rng, T), opts), large="T")
+        for N in sizes(rng):
+            T = rng.randint(1, 3)
+            pf = draw_profile(rng)
+            rows = [[tok_of(rng, pf["mag"], *rng.choice(segs + [(0, 5), (2, 6), (4, 4)])) for _ in range(T)]
+                    for _ in range(N)]
+            opts = [{"in_lens": None, "other_lens": None},
+                    {"in_lens": [rng.randint(0, T) for _ in range(N)], "other_lens": [rng.randint(0, 7) for _ in range(N)]}]
+            yield dict(self.ref_case(rng, pf, N, T, rows, [0, rng.randint(1, 3)], opts), large="N")
+
     def cases_malformed(self, rng, big):
         base = {"kind": "slice", "N": 2, "T": 3, "lobes": [1], "wts": ["symmetric"], "valids": [True, False]}
         # wrong-shaped lengths: the documented RuntimeError (modelled: Err.shape)
@@ -556,6 +866,8 @@ class C10(PropertyCheck):
             return self.impl_tokens(case)
         if kind == "dir":
             return c10_dir.run_dir(case)
+        if kind == "frames":
+            return self.impl_frames(case)
         return self.impl_malformed(case)
 
     def impl_slice(self, case):
@@ -578,7 +890,7 @@ class C10(PropertyCheck):
                 else:
                     res.append({"windows": [[int(a), int(b), int(s)] for (a, b), s in zip(sl.tolist(), src.tolist())]})
             except Exception as e:
-                res.append({"error": type(e).__name__, "message": str(e)[:120]})
+                res.append({"error": err_class(e), "message": str(e)[:120]})
         return {"results": res}
 
     def impl_tokens(self, case):
@@ -607,7 +919,7 @@ class C10(PropertyCheck):
                 lens = [int(c) for c in cl]
                 res.append({"lens": lens, "chunks": [ch[n, :lens[n]].tolist() for n in range(N)]})
             except Exception as e:
-                res.append({"error": type(e).__name__, "message": str(e)[:120]})
+                res.append({"error": err_class(e), "message": str(e)[:120]})
         return {"results": res}
 
     def impl_malformed(self, case):
@@ -669,9 +981,12 @@ class C10(PropertyCheck):
     def cfg_str(self, case, g):
         if case["kind"] == "slice":
             lobe, wt, vo, oi = g
-            return f"policy={case['policy']} lobe={lobe} {wt} valid_only={vo} {case['lens_opts'][oi]}"
+            o = case["lens_opts"][oi]
+            return (f"policy={case['policy']} lobe={lobe} {wt} valid_only={vo} "
+                    f"{{'in_lens': {brief(o.get('in_lens'))}, 'other_lens': {brief(o.get('other_lens'))}}}")
         p, r, si, li = g
-        return f"partial={p} retain={r} slices={case['slices_opts'][si]} ref_lens={case['ref_lens_opts'][li]}"
+        return (f"partial={p} retain={r} slices={brief(case['slices_opts'][si])} "
+                f"ref_lens={brief(case['ref_lens_opts'][li])}")
 
     def compare(self, case, impl, model):
         if case["kind"] == "malformed" or model is None:
@@ -693,7 +1008,8 @@ class C10(PropertyCheck):
                 elif "error" in a:
                     out.append(f"{self.cfg_str(case, g)}: impl raised {a['error']} ({a.get('message')}), model {m}")
                 elif a["windows"] != m:
-                    out.append(f"{self.cfg_str(case, g)}: impl {a['windows']} model {m}")
+                    out.append(f"{self.cfg_str(case, g)}: impl {brief(a['windows'])} model {brief(m)}"
+                               f"{diff_note(a['windows'], m)}")
             else:
                 if m == "error:shape":
                     if a.get("error") != "RuntimeError":
@@ -701,7 +1017,10 @@ class C10(PropertyCheck):
                 elif "error" in a:
                     out.append(f"{self.cfg_str(case, g)}: impl raised {a['error']} ({a.get('message')})")
                 elif a["lens"] != m["lens"] or a["chunks"] != m["chunks"]:
-                    out.append(f"{self.cfg_str(case, g)}: impl {a['chunks']} model {m['chunks']}")
+                    n = next((i for i, (x, y) in enumerate(zip(a["chunks"], m["chunks"])) if x != y), 0)
+                    x, y = (a["chunks"] + [[]])[n], (m["chunks"] + [[]])[n]
+                    out.append(f"{self.cfg_str(case, g)}: lens impl {brief(a['lens'])} model {brief(m['lens'])}; "
+                               f"element {n}: impl {brief(x)} model {brief(y)}{diff_note(x, y)}")
             if len(out) >= 3:
                 break
         return out
@@ -711,6 +1030,8 @@ class C10(PropertyCheck):
         kind = case["kind"]
         if kind == "malformed":
             return self.pred_malformed(case, impl)
+        if kind == "frames":
+            return self.pred_frames(case, impl)
         if kind == "dir":
             return [] if model is None else c10_dir.predicate(case, impl, model, SIG_PLUS)
         if "error" in impl:
@@ -733,8 +1054,8 @@ class C10(PropertyCheck):
                                   f"prescribes {spec}", None))
                     continue
                 if a["windows"] != spec:
-                    fails.append((f"{self.cfg_str(case, g)}: returned {a['windows']}, the policy prescribes {spec}",
-                                  None))
+                    fails.append((f"{self.cfg_str(case, g)}: returned {brief(a['windows'])}, the policy prescribes "
+                                  f"{brief(spec)}{diff_note(a['windows'], spec)}", None))
                 if vo:
                     for s, e, n in a["windows"]:
                         if not (0 <= n < case["N"]):
@@ -766,10 +1087,11 @@ class C10(PropertyCheck):
                 # the specific known wrong formula: out_boundary == in_boundary + slice_start
                 plus = [[t, s + 2 * st, e + 2 * st] for t, s, e in want]   # want = in - st  =>  in + st
                 if (not r) and st != 0 and got == plus:
-                    fails.append((f"{self.cfg_str(case, g)} element {n}: boundaries are in+start {got}, "
-                                  f"slice-relative is {want}", SIG_PLUS))
+                    fails.append((f"{self.cfg_str(case, g)} element {n}: boundaries are in+start {brief(got)}, "
+                                  f"slice-relative is {brief(want)}", SIG_PLUS))
                 else:
-                    fails.append((f"{self.cfg_str(case, g)} element {n}: chunk {got}, specified {want}", None))
+                    fails.append((f"{self.cfg_str(case, g)} element {n}: chunk {brief(got)}, specified {brief(want)}"
+                                  f"{diff_note(got, want)}", None))
             if len(a["chunks"]) != len(spec):
                 fails.append((f"{self.cfg_str(case, g)}: {len(a['chunks'])} rows for {len(spec)} elements", None))
             if len([f for f in fails if f[1] is None]) >= 4 or len(fails) >= 12:
@@ -795,6 +1117,8 @@ class C10(PropertyCheck):
     def nontrivial(self, case, impl):
         if case["kind"] == "dir":
             return isinstance(impl, dict) and len(impl.get("listing", {}).get("feat") or []) >= 2
+        if case["kind"] == "frames":
+            return self.nontrivial_frames(impl)
         if not isinstance(impl, dict) or "results" not in impl:
             return False
         if case["kind"] == "slice":
@@ -804,16 +1128,26 @@ class C10(PropertyCheck):
             return any(0 < l < R for r in impl["results"] for l in r.get("lens", []))
         return False
 
+    def nontrivial_frames(self, impl):
+        return isinstance(impl, dict) and any(len(c) >= 2 for c in impl.get("chunks", []))
+
     def tags(self, case, impl):
         if case["kind"] == "malformed":
             return ["malformed:" + case["what"]]
         if case["kind"] == "dir":
             return c10_dir.tags(case, impl)
+        if case["kind"] == "frames":
+            return ["frames", f"large:frames:{case['large']}={self.size_class(case[case['large']])}",
+                    f"frames:{case['what']}:{case['mode']}", "frames:via:" + case["via"],
+                    "frames:" + ("expanded" if case["same"] else "rows_differ")]
         t = []
         if case["kind"] == "slice":
             t.append(f"slice:{case['policy']}")
             t.append(f"slice:{case['policy']}:N={min(case['N'], 4)}{'+' if case['N'] > 4 else ''}")
-            t.append(f"slice:T={case['T']}")
+            t.append(f"slice:T={self.size_class(case['T'])}")
+            if case.get("large"):
+                t.append(f"large:{case['policy']}:{case['large']}={self.size_class(case[case['large']])}")
+                t.append(f"large:{case['policy']}:max_lobe={self.size_class(max(case['lobes']))}")
             t.append("via:" + case.get("via", "functional"))
             t.append("layout:" + case.get("layout", "contiguous"))
             t += self.free_tags(case)
@@ -831,8 +1165,17 @@ class C10(PropertyCheck):
             t.append("via:" + case.get("via", "functional"))
             t.append("layout:" + case.get("layout", "contiguous"))
             t += self.free_tags(case)
-            t.append(f"tokens:R={len(case['refs'][0]) if case['refs'] else 0}")
+            R, N = len(case["refs"][0]) if case["refs"] else 0, len(case["refs"])
+            t.append(f"tokens:R={self.size_class(R)}")
+            if case.get("large"):
+                t.append(f"large:tokens:R={self.size_class(R)}:N={self.size_class(N)}")
+                if isinstance(impl, dict) and any(any(l > 16 for l in r.get("lens", [])) for r in impl.get("results", [])):
+                    t.append("large:tokens:more_than_16_kept_in_a_row")
         return t
+
+    @staticmethod
+    def size_class(n):
+        return str(n) if n <= 12 or n in SIZES else ("1000+" if n >= 1000 else "other")
 
     @staticmethod
     def free_tags(case):
@@ -867,24 +1210,9 @@ class C10(PropertyCheck):
             t.append("ref:other_lens<0")
         return t
 
-    def has_unknown_failure(self, case):
-        """Does the property fail on `case` in a way that is NOT the listed known finding?"""
-        from common import framework, leantools
-        try:
-            r = framework.evaluate(self, [case], leantools.obligations(self.pid)["driver"])[0]
-        except Exception:
-            return False
-        return (not r.get("internal")) and any(f.signature is None for f in r["fail"])
-
     def shrink(self, case):
-        # The framework keeps a smaller candidate when it fails in ANY way; most token / directory inputs
-        # also show the known +start finding, so a fresh violation would be shrunk into an input that only
-        # shows the known one. Candidates of a case with an unlisted failure must keep an unlisted failure.
-        if case["kind"] in ("dir", "tokens") and self.has_unknown_failure(case):
-            for c in self.shrink_raw(case):
-                if self.has_unknown_failure(c):
-                    yield c
-            return
+        # (the framework's shrinker never accepts a candidate whose only failures are listed known findings, so a
+        # fresh violation is not shrunk into an input that shows only the known +start finding)
         yield from self.shrink_raw(case)
 
     def shrink_form(self, case):
@@ -929,7 +1257,31 @@ class C10(PropertyCheck):
                         c[k] = [v]
                         yield c
             N, T = case["N"], case["T"]
-            if N > 1:
+
+            def keep_rows(idx):
+                c = dict(case)
+                c["N"] = len(idx)
+                if "rows" in case:
+                    c["rows"] = [case["rows"][i] for i in idx]
+                c["lens_opts"] = [{k: (None if v is None else [v[i] for i in idx if i < len(v)])
+                                   for k, v in o.items()} for o in case["lens_opts"]]
+                return c
+
+            def cut_T(T2):
+                c = dict(case)
+                c["T"] = T2
+                if "rows" in case:
+                    c["rows"] = [r[:T2] for r in case["rows"]]
+                c["lens_opts"] = [{"in_lens": None if o.get("in_lens") is None else [min(x, T2) for x in o["in_lens"]],
+                                   "other_lens": o.get("other_lens")} for o in case["lens_opts"]]
+                return c
+            if N > 6:       # large batches: halves first
+                yield keep_rows(list(range(N // 2)))
+                yield keep_rows(list(range(N // 2, N)))
+            if T > 6:
+                yield cut_T(T // 2)
+                yield cut_T(T - T // 4)
+            if 1 < N <= 40:
                 for drop in range(N):
                     c = dict(case)
                     c["N"] = N - 1
@@ -951,6 +1303,15 @@ class C10(PropertyCheck):
                     c = dict(case)
                     c["lobes"] = [l - 1]
                     yield c
+        elif case["kind"] == "frames":
+            N = case["N"]
+            if N > 1:
+                for idx in ([range(N // 2), range(N // 2, N)] if N > 6 else [[i] for i in range(N)]):
+                    yield dict(case, N=len(idx), slices=[case["slices"][i] for i in idx])
+            if case["via"] != "functional":
+                yield dict(case, via="functional")
+            if case["same"]:
+                yield dict(case, same=False)
         elif case["kind"] == "tokens":
             yield from self.shrink_form(case)
             for k in ("partials", "retains", "slices_opts", "ref_lens_opts"):
@@ -962,15 +1323,34 @@ class C10(PropertyCheck):
             N = len(case["refs"])
             well_shaped = all(len(sl) == N for sl in case["slices_opts"]) and \
                 all(l is None or len(l) == N for l in case["ref_lens_opts"])
-            if N > 1 and well_shaped:
+            R = len(case["refs"][0]) if N else 0
+
+            def keep_toks(idx):
+                c = dict(case)
+                c["refs"] = [[row[i] for i in idx] for row in case["refs"]]
+                c["ref_lens_opts"] = [None if l is None else [sum(1 for i in idx if i < x) for x in l]
+                                      for l in case["ref_lens_opts"]]
+                return c
+            if N > 6 and well_shaped:     # large batches / long lists: halves first
+                for idx in (range(N // 2), range(N // 2, N)):
+                    c = dict(case)
+                    c["refs"] = [case["refs"][i] for i in idx]
+                    c["slices_opts"] = [[s[i] for i in idx] for s in case["slices_opts"]]
+                    c["ref_lens_opts"] = [None if l is None else [l[i] for i in idx] for l in case["ref_lens_opts"]]
+                    yield c
+            if R > 6:
+                yield keep_toks(range(R // 2))
+                yield keep_toks(range(R // 2, R))
+                yield keep_toks(range(R - R // 4))
+                yield keep_toks(range(R // 4, R))
+            if 1 < N <= 40 and well_shaped:
                 for keep in range(N):
                     c = dict(case)
                     c["refs"] = [case["refs"][keep]]
                     c["slices_opts"] = [[s[keep]] for s in case["slices_opts"]]
                     c["ref_lens_opts"] = [None if l is None else [l[keep]] for l in case["ref_lens_opts"]]
                     yield c
-            R = len(case["refs"][0]) if N else 0
-            if R > 1:
+            if 1 < R <= 80:
                 for drop in range(R):
                     c = dict(case)
                     c["refs"] = [[t for i, t in enumerate(row) if i != drop] for row in case["refs"]]
